@@ -63,6 +63,7 @@ type conf struct {
 	CKeys  []string            `json:"ckeys"`
 	OKey   string              `json:"okey"`
 	Faults bool                `json:"faults"`
+	Fresh  bool                `json:"fresh"` // the layout directory does not exist when the history starts
 }
 
 type step struct {
@@ -96,7 +97,8 @@ type world struct {
 	cat   *catalog
 	net   *simreg.Net
 	rc    *regclient.RegClient
-	dir   string
+	dir   string // the layout directory (real path); audits read it directly
+	link  string // the same directory reached through a symbolic link
 	ctx   context.Context
 	trace *vtrace.Trace
 
@@ -303,6 +305,8 @@ func (w *world) tgtRef(key, tag, dig string) (ref.Ref, error) {
 	case "p":
 	case "p/":
 		p += "/"
+	case "l":
+		p = w.link
 	default:
 		return ref.Ref{}, fmt.Errorf("unknown key %q", key)
 	}
@@ -332,9 +336,22 @@ func (w *world) setup(work string) error {
 	}
 	w.loadRepo(h, "pre")
 	h.Intercept = w.intercept
-	w.dir = filepath.Join(work, "lay")
-	if err := os.MkdirAll(w.dir, 0o777); err != nil {
+	// <work>/real/lay is the layout, <work>/link -> real is part of the environment
+	real := filepath.Join(work, "real")
+	if err := os.MkdirAll(real, 0o777); err != nil {
 		return err
+	}
+	if err := os.Symlink("real", filepath.Join(work, "link")); err != nil {
+		return err
+	}
+	w.dir = filepath.Join(real, "lay")
+	w.link = filepath.Join(work, "link", "lay")
+	if !w.sc.Conf.Fresh {
+		if err := os.MkdirAll(w.dir, 0o777); err != nil {
+			return err
+		}
+	} else if len(w.sc.Conf.Pre) > 0 || len(w.sc.Conf.Plant) > 0 {
+		return errors.New("scenario: a fresh layout cannot have earlier content")
 	}
 	w.ctx = context.Background()
 	// content the layout held before this process: copied by another client instance
